@@ -121,6 +121,8 @@ def run_path(I, c, fn, module, res):
             if p not in params and not p.startswith('$'):
                 raise Unsupported('contract names parameter %s which %s does not have' % (p, c.qualname))
         fr.locals_assigned = assigned_names(fn)
+        for i in range(len(extract.loops_of(fn))):
+            I.ghost['_G_k%d' % i] = 0          # loop counters read 0 before their loop is reached
         for g, e in c.ghost.items():
             I.ghost[gsub(g)] = I.pure_eval(e, fr)
         for r in c.requires:
@@ -172,6 +174,14 @@ def run_path(I, c, fn, module, res):
             for i, e in enumerate(c.ensures):
                 g = I.as_goal(I.pure_eval(e, pf, {'result': result}))
                 ctx.oblige(I.oname('post', None, i), g, 'post')
+            for k, (cond, e) in c.sets_if.items():
+                slf = pf.env.get('self')
+                cnd = I.as_goal(I.pure_eval(cond, old))
+                if k in slf.attrs:
+                    g = z3.Implies(cnd, I.as_goal(I.equal(slf.attrs[k], I.pure_eval(e, old))))
+                else:
+                    g = z3.Not(cnd)
+                ctx.oblige(I.oname('sets-if[%s]' % k, None), g, 'post')
             if c.result_expr is not None:
                 want = I.pure_eval(c.result_expr, pf)
                 ctx.oblige(I.oname('post-result', None), I.as_goal(I.equal(result, want)), 'post')
